@@ -250,17 +250,13 @@ GraphLawOn(v) == (FirstOrder /\ ~Twice /\ v \cap {"fuel", "mac-argc", "mac-impro
 \* a certificate is never issued for a use that mentions no visible macro at all
 NeedsMacroOn(v) == Cert(v) # {} => AtomsOf(use) \cap EnvNames # {}
 
-\* Feature (implementation-shaped, for the keys of findings only): some term of the text -- the use or a body, the
-\* compiler expands a body when it is defined -- has a circular expansion although no cycle of the definition graph
-\* is reachable from it: the circle goes through a parameter that is applied (f(x) ==> x(x), f(f)).
-AllNames == {Defs[i].nm : i \in 1..N}
-EnvAll == [nm \in AllNames |-> LET I == {i \in 1..N : Defs[i].nm = nm} IN Defs[CHOOSE i \in I : \A i2 \in I : i2 <= i]]
-RefsAll(t) == AtomsOf(t) \cap AllNames
-RECURSIVE ReachAll(_, _)
-ReachAll(S, k) == IF k = 0 THEN S ELSE ReachAll(S \cup UNION {RefsAll(EnvAll[m].body) : m \in S}, k - 1)
-CycleFrom(t) == \E m \in ReachAll(RefsAll(t), 4) : m \in ReachAll(RefsAll(EnvAll[m].body), 4)
-HoCircular == \E t \in {use} \cup {Defs[i].body : i \in 1..N} :
-                 "mac-circular" \in Norm(t, EnvAll, {}, {}, Fuel) /\ ~CycleFrom(t)
+\* Feature (implementation-shaped, for the keys of findings only): some macro function applies one of its parameters
+\* (f(x) ==> x(x)).  An expansion that goes on for ever through such applications never has the body of an identifier
+\* macro "active", which is all that the compiler's circularity check looks at.
+RECURSIVE AppliesParam(_, _)
+AppliesParam(t, ps) == \/ (t.hd \in Rng(ps) /\ t.ar # << >>)
+                       \/ \E j \in 1..Len(t.ar) : \E q \in 1..Len(t.ar[j]) : AppliesParam(t.ar[j][q], ps)
+ParamApplied == \E i \in 1..N : AppliesParam(Defs[i].body, Defs[i].ps)
 
 \* one evaluation of the verdicts per selected program: the export and the two laws
 Exported ==
@@ -272,7 +268,7 @@ Exported ==
                                                 t |-> IF "no-meaning" \in v THEN << "no-meaning" >> ELSE << >>,
                                                 u |-> IF "fuel" \in v THEN 1 ELSE 0,
                                                 g |-> IF GraphCycle THEN 1 ELSE 0, h |-> H1,
-                                                f |-> IF HoCircular THEN << "circular-not-in-graph" >> ELSE << >>]))
+                                                f |-> IF ParamApplied THEN << "param-applied" >> ELSE << >>]))
          /\ Assert(GraphLawOn(v), << "GraphLaw", ds, use, rot, vm >>)
          /\ Assert(NeedsMacroOn(v), << "CertNeedsMacro", ds, use, rot, vm >>)
 =============================================================================
